@@ -243,7 +243,8 @@ class Check:
             for blk in re.split(r"(?=Closed under the global context|Axioms:)", out):
                 if blk.startswith("Axioms:"):
                     for m in re.finditer(r"^([A-Za-z_][\w.']*)\s*:", blk, flags=re.M):
-                        self.axioms.add(m.group(1))
+                        if m.group(1) != "Axioms":
+                            self.axioms.add(m.group(1))
             self.partial += [t for t in thms if t.endswith("_partial")]
             self.partial += re.findall(r"^\s*(?:Theorem|Corollary)\s+(\w+_refuted)", src_nc, flags=re.M)
         return not self.l1_broken
